@@ -79,6 +79,7 @@ def check(v, hists):
             if len(dep_events) != len(new_deps):
                 v.violate("C04/deposit-event-count-mismatch", "%d deposit events for %d cached deposits" % (len(dep_events), len(new_deps)), wit)
             # withdrawals honoured at most once
+            in_this_tx = {}
             for a in acts:
                 ev = a.get("event_id")
                 if a["kind"] == "ics20_withdrawal" and a.get("bridge") and a.get("memo"):
@@ -90,6 +91,10 @@ def check(v, hists):
                     continue
                 bridge = a.get("bridge")
                 key = (bridge, ev)
+                if key in in_this_tx:
+                    v.violate("C04/withdrawal-event-honoured-twice/%s+%s" % (in_this_tx[key], a["kind"]),
+                              "withdrawal event id %s of bridge %s honoured twice inside one transaction" % (ev, bridge), wit)
+                in_this_tx[key] = a["kind"]
                 if o.trial:
                     if key in honoured:
                         v.violate("C04/withdrawal-event-honoured-twice/%s+%s" % (honoured[key][0], a["kind"]), "withdrawal event id %s of bridge %s honoured again (trial)" % (ev, bridge), wit)
